@@ -151,6 +151,8 @@ def c20_inline_line_comment_swallows_code(op, impl, model, args):
     grown = [c for c in _scan(t)[1] if c.startswith(("//", "#"))]
     if op.get("op") == "fmt.idem":
         orig = [_squash(c) for c in _scan(op.get("t", ""))[1] if c.startswith(("//", "#"))]
+        # an EMPTY source comment (`//`, `#`) is a prefix of every comment: it proves nothing
+        orig = [o for o in orig if o not in ("//", "#")]
         return any(_squash(g).startswith(o) and len(_squash(g)) > len(o) for g in grown for o in orig)
     return any(re.search(r"[\]\)\}]", g) for g in grown)
 
@@ -251,12 +253,19 @@ def _h_closing_side(h):
 _HUNK_PREDICATES = [_h_comment, _h_width, _h_inline_group, _h_dangling_rparen, _h_blank_after_lparen, _h_closing_side]
 
 
-def _relayout(op, impl, own):
+def _relayout(op, impl, model, own):
     r = _idem(op, impl)
     if r is None or r[0] == r[1] or r[2] > 4:
         return False
     same, ca, cb = _same_tokens(r[0], r[1])
     if not same:
+        return False
+    # Lean's verdict on the REAL lexer's lexemes of both passes: FmtSink.sameTokCB = equal sequences of
+    # non-trivia lexemes (kind and text) after dropping a `,` that directly precedes a closing bracket
+    # (Props/C20: same_tokens_check_sound, same_tokens_mod_comma_sound).  The scanner above is only a
+    # pre-filter; when Lean says the code tokens differ the case is never a layout finding.
+    # Absent for fmt.main cases (no lexemes shipped there).
+    if isinstance(model, dict) and model.get("_same_code_tokens_mod_trailing_comma") is False:
         return False
     hs = _hunks(r[0], r[1])
     return bool(hs) and all(any(p(h) for p in _HUNK_PREDICATES) for h in hs) and any(own(h) for h in hs)
@@ -264,31 +273,31 @@ def _relayout(op, impl, own):
 
 def c20_second_pass_blank_line_after_lparen(op, impl, model, args):
     """a blank line between `(` and the first argument is kept by the first pass and changed by the next"""
-    return _relayout(op, impl, _h_blank_after_lparen)
+    return _relayout(op, impl, model, _h_blank_after_lparen)
 
 
 def c20_second_pass_moves_comment(op, impl, model, args):
     """a comment the printers have no slot for (after `{`/`[` on the same line, between `assert`/`local`
     and its body, after the last comprehension spec, inside parentheses) is moved or dropped by the
     next pass; the code tokens are unchanged"""
-    return _relayout(op, impl, _h_comment)
+    return _relayout(op, impl, model, _h_comment)
 
 
 def c20_second_pass_rebreaks_at_width_limit(op, impl, model, args):
     """a line at the 100-column limit is broken differently on the formatter's own output"""
-    return _relayout(op, impl, _h_width)
+    return _relayout(op, impl, model, _h_width)
 
 
 def c20_second_pass_expands_inline_group(op, impl, model, args):
     """`[ assert c; v ]`, `f(|||..|||)`, `g(p = {` newline `})`: a child with a forced line break sits in a
     group the first pass printed in single-line form; the next pass prints the group multi-line"""
-    return _relayout(op, impl, _h_inline_group)
+    return _relayout(op, impl, model, _h_inline_group)
 
 
 def c20_second_pass_joins_dangling_rparen(op, impl, model, args):
     """`x(` newline `)` (empty argument list) or `f(a` newline `)` (blank lines before `)` in the source)
     printed by the first pass becomes `x()` / `f(a)` on the next"""
-    return _relayout(op, impl, _h_dangling_rparen)
+    return _relayout(op, impl, model, _h_dangling_rparen)
 
 
 # ------------------------------------------------------------------------------------------------
